@@ -98,16 +98,17 @@ def gen(seed, tier):
         world['dynamic'] = []
         world['prebind'] = []
         ntasks = rng.randrange(2, 5)
+        goal_facts = rng.random() < 0.3
         # dynamic facts, some with fact-local variables, next to the compiled program
         dyn = []
         for _ in range(rng.randrange(0, 5)):
             n, a = rng.choice([('s', 2), ('q', 1), ('d', 2), ('d', 1)])
-            dyn.append([n, [rng.choice([['v', 0], ['v', 1], ['a', 'a'], ['a', 'b'], ['i', 1], ['f', 'f', [['v', 0]]]]) for _ in range(a)]])
+            dyn.append([n, [rng.choice([['v', 0], ['v', 1], ['a', 'a'], ['a', 'b'], ['i', 1], ['f', 'f', [['v', 0]]], ['f', '.', [['a', 'a'], ['v', 0]]]]) for _ in range(a)]])
         tasks = []
         for _ in range(ntasks):
             n, a = rng.choice([['p', 2], ['h1', 2], ['h2', 1], ['s', 2], ['q', 1], ['t', 3], ['u', 1], ['d', 2], ['d', 1], ['d', 2]])
             # arguments: the task's own fresh variables, or ground terms (tasks never share variables)
-            tasks.append([n, a, [(['v', j] if rng.random() < 0.6 else rng.choice([['a', 'a'], ['a', 'b'], ['a', 'c'], ['i', 1], ['i', 2]])) for j in range(a)]])
+            tasks.append([n, a, [(['v', j] if rng.random() < 0.6 else rng.choice([['a', 'a'], ['a', 'b'], ['a', 'c'], ['i', 1], ['i', 2], TM.J(TM.mklist([('a', 'a'), ('a', 'b')])), TM.J(TM.mklist([('a', 'a'), ('a', 'c')]))])) for j in range(a)]])
         if rng.random() < 0.5:
             # several overlapping activations of the same compiled clauses (their `_` and local variables must be
             # fresh per activation): the first two tasks call the program's top predicate with their own variables
@@ -118,6 +119,16 @@ def gen(seed, tier):
             dyn = [['d', [['v', 0], ['v', 0]]]] + dyn[:1]
             ntasks = rng.randrange(3, 5)
             tasks = [['d', 2, [rng.choice([['a', 'a'], ['a', 'b'], ['a', 'c']]), ['v', 0]]] for _ in range(ntasks)]
+            if rng.random() < 0.4:
+                # ... or one fact holding an open list, used with different closed lists
+                dyn = [['d', [['f', '.', [['a', 'a'], ['v', 0]]]]]]
+                tasks = [['d', 1, [TM.J(TM.mklist([('a', 'a'), ('a', rng.choice('bcd'))]))]] for _ in range(ntasks)]
+        if goal_facts:
+            # a goal term passed in by the caller and called with an extra argument by a compiled clause; the task's
+            # argument terms are built once, so the goal term outlives each call
+            world['rules'] = ['p(X,Y) :- call(X,Y).'] + world['rules']
+            tasks[0] = ['p', 2, [['f', 's', [['a', 'b']]], ['v', 1]]]
+            tasks[1] = ['p', 2, [rng.choice([['f', 's', [['a', 'a']]], ['f', 'q', []]]), ['v', 1]]]
         steps = [[rng.randrange(ntasks), rng.choice(['next'] * 8 + ['close', 'drop'])] for _ in range(rng.randrange(4, 40))]
         return {'mode': mode, 'world': world, 'dynfacts': dyn, 'tasks': tasks, 'steps': steps}
     ne = rng.choice((2, 2, 3) if tier != 'thorough' else (2, 3, 3, 4))
@@ -375,9 +386,15 @@ def execute_same_engine(plan):
     if any(not TM.is_ground(TM.T(x)) for _, row in plan.get('dynfacts', []) for x in row):
         log.count('same_engine_nonground_dynamic_facts')
 
+    built = {}
+
     def mk(t):
-        vm = {}
-        vs = [TM.build(yp, TM.T(x), vm) for x in t[2]] if len(t) > 2 else [yp.variable() for _ in range(t[1])]
+        # a task's argument terms are built once and used for its solo run and for its interleaved run
+        key_ = id(t)
+        if key_ not in built:
+            vm = {}
+            built[key_] = [TM.build(yp, TM.T(x), vm) for x in t[2]] if len(t) > 2 else [yp.variable() for _ in range(t[1])]
+        vs = built[key_]
         return GenTask(yp.query(t[0], vs)), vs
     try:
         solo = []
